@@ -1,5 +1,5 @@
 import HeimdallModel.Gen.PathNormSrc
-import HeimdallModel.Base.UrlEscape
+import HeimdallModel.Lemmas.UrlEscape
 /-!
 # C08 — the byte-level helpers of the path normalisation *as they stand in the source*
 
@@ -12,6 +12,7 @@ semantics-preserving rewrite of the two functions (a `switch` instead of the cha
 constants by number) keeps proving and every change of a value on some byte does not.
 -/
 set_option maxRecDepth 1000000
+set_option linter.unusedSimpArgs false
 
 namespace Heimdall.Props.C08
 open Heimdall
@@ -53,5 +54,185 @@ theorem c08_src_escape_value :
     PathNorm.Src.isUnreserved (PathNorm.Src.unhex 50 * 16 + PathNorm.Src.unhex 53) = false := by decide
 
 example : (0 : Int) ≤ PathNorm.Src.unhex 52 ∧ (0 : Int) ≤ PathNorm.Src.unhex 101 := by decide
+
+/-! ## `normalizeUnreserved`: the index loop over the string -/
+
+/-- a byte string as the translated functions see it -/
+def asInts (l : List Nat) : List Int := l.map Int.ofNat
+
+/-- a byte string as the model sees it (one `Char` per byte) -/
+def asChars (l : List Nat) : List Char := l.map Char.ofNat
+
+/-- the model's result read back as bytes -/
+def ofChars (l : List Char) : List Int := l.map fun c => (c.toNat : Int)
+
+theorem byte_char_toNat : ∀ n : Nat, n < 256 → (Char.ofNat n).toNat = n := by decide
+
+theorem byte_is_percent : ∀ n : Nat, n < 256 → (decide (Char.ofNat n = '%')) = decide ((n : Int) = 37) := by decide
+
+theorem byte_unhex_nonneg : ∀ n : Nat, n < 256 → decide (PathNorm.Src.unhex (n : Int) ≥ 0) = isHex (Char.ofNat n) := by
+  decide
+
+/-- `byte(hi<<4 | lo)` of two hex digits is the octet the model computes -/
+theorem byte_octet : ∀ m : Nat, m < 256 → isHex (Char.ofNat m) = true → ∀ n : Nat, n < 256 → isHex (Char.ofNat n) = true →
+    ((((PathNorm.Src.unhex (m : Int) * 16).toNat ||| (PathNorm.Src.unhex (n : Int)).toNat : Nat) : Int) % 256
+      = ((octet (Char.ofNat m) (Char.ofNat n)).toNat : Int)) ∧ (octet (Char.ofNat m) (Char.ofNat n)).toNat < 256 := by
+  decide
+
+/-- **The index loop at index `i` with the bytes `l` still to come writes what the model's `normalizeL` makes of
+`l`**, for every byte string and every `i` (induction on the length of the remaining suffix). -/
+theorem c08_src_normalize_loop : ∀ (k : Nat) (l : List Nat), l.length ≤ k → (∀ n ∈ l, n < 256) → ∀ i : Int,
+    PathNorm.Src.normalizeUnreserved_loop i (asInts l) = ofChars (normalizeL (asChars l)) := by
+  intro k
+  induction k with
+  | zero =>
+    intro l hl _ i
+    have : l = [] := List.length_eq_zero_iff.mp (by omega)
+    subst this
+    simp [PathNorm.Src.normalizeUnreserved_loop, asInts, asChars, ofChars, normalizeL]
+  | succ k ih =>
+    intro l hl hb i
+    match l, hl, hb with
+    | [], _, _ => simp [PathNorm.Src.normalizeUnreserved_loop, asInts, asChars, ofChars, normalizeL]
+    | [c], _, hb =>
+      have hc := byte_char_toNat c (hb c (by simp))
+      simp [PathNorm.Src.normalizeUnreserved_loop, asInts, asChars, ofChars, normalizeL, hc]
+    | [c, a], _, hb =>
+      have hc := byte_char_toNat c (hb c (by simp))
+      have ha := byte_char_toNat a (hb a (by simp))
+      simp [PathNorm.Src.normalizeUnreserved_loop, asInts, asChars, ofChars, normalizeL, hc, ha]
+    | c :: a :: b :: rest, hl, hb =>
+      have hcb : c < 256 := hb c (by simp)
+      have hab : a < 256 := hb a (by simp)
+      have hbb : b < 256 := hb b (by simp)
+      have hc := byte_char_toNat c hcb
+      have hp := byte_is_percent c hcb
+      have hha := byte_unhex_nonneg a hab
+      have hhb := byte_unhex_nonneg b hbb
+      have ih1 := ih (a :: b :: rest) (by simp at hl ⊢; omega) (fun n hn => hb n (List.mem_cons_of_mem _ hn)) (i + 1)
+      have ih2 := ih rest (by simp at hl ⊢; omega) (fun n hn => hb n (List.mem_cons_of_mem _ (List.mem_cons_of_mem _ (List.mem_cons_of_mem _ hn)))) (i + 2 + 1)
+      have hp' : (Char.ofNat c = '%') ↔ ((c : Int) = 37) := by simpa using hp
+      have hha' : (PathNorm.Src.unhex (a : Int) ≥ 0) ↔ isHex (Char.ofNat a) = true := by rw [← hha, decide_eq_true_iff]
+      have hhb' : (PathNorm.Src.unhex (b : Int) ≥ 0) ↔ isHex (Char.ofNat b) = true := by rw [← hhb, decide_eq_true_iff]
+      have e1 : asInts (c :: a :: b :: rest) = (c : Int) :: (a : Int) :: (b : Int) :: asInts rest := rfl
+      have e2 : asChars (c :: a :: b :: rest) = Char.ofNat c :: Char.ofNat a :: Char.ofNat b :: asChars rest := rfl
+      have e3 : asInts (a :: b :: rest) = (a : Int) :: (b : Int) :: asInts rest := rfl
+      have e4 : asChars (a :: b :: rest) = Char.ofNat a :: Char.ofNat b :: asChars rest := rfl
+      rw [e3, e4] at ih1
+      rw [e1, e2]
+      unfold PathNorm.Src.normalizeUnreserved_loop
+      have hlen : i + 2 < i + ((((a : Int) :: (b : Int) :: asInts rest).length : Int) + 1) := by
+        simp only [List.length_cons]; omega
+      by_cases hpc : (c : Int) = 37
+      · have hcp : Char.ofNat c = '%' := hp'.mpr hpc
+        cases hA : isHex (Char.ofNat a) <;> cases hB : isHex (Char.ofNat b)
+        all_goals simp only [hA, hB] at hha' hhb'
+        all_goals have h2 : (2 : Int) < ↑(asInts rest).length + 1 + 1 + 1 := by omega
+        · simp [normalizeL, hcp, hpc, hA, hB, hha', hhb', ih1, ofChars, h2]
+        · simp [normalizeL, hcp, hpc, hA, hB, hha', hhb', ih1, ofChars, h2]
+        · simp [normalizeL, hcp, hpc, hA, hB, hha', hhb', ih1, ofChars, h2]
+        · obtain ⟨ho, holt⟩ := byte_octet a hab hA b hbb hB
+          have hu := c08_src_is_unreserved _ holt
+          have hback : Char.ofNat (octet (Char.ofNat a) (Char.ofNat b)).toNat = octet (Char.ofNat a) (Char.ofNat b) :=
+            Char.ofNat_toNat _
+          rw [hback] at hu
+          simp only [normalizeL, hcp, hpc, hA, hB, hha', hhb', ih1, ih2, ofChars, h2, ho, hu, hlen, List.getD_cons_zero,
+            List.getD_cons_succ, List.drop_succ_cons, List.drop_zero, ge_iff_le, and_self, if_true, true_and, Bool.and_true,
+            Bool.true_and, decide_true]
+          split <;> simp
+      · have hcp : ¬ Char.ofNat c = '%' := fun h => hpc (hp'.mp h)
+        simp [normalizeL, hcp, hpc, ih1, ofChars, hc]
+
+theorem ofChars_asChars (l : List Nat) (hb : ∀ n ∈ l, n < 256) : ofChars (asChars l) = asInts l := by
+  induction l with
+  | nil => rfl
+  | cons c t ih =>
+    have hc := byte_char_toNat c (hb c (by simp))
+    have := ih (fun n hn => hb n (List.mem_cons_of_mem _ hn))
+    simp [ofChars, asChars, asInts, hc] at this ⊢
+    exact this
+
+theorem normalizeL_no_percent : ∀ l : List Char, (∀ c ∈ l, c ≠ '%') → normalizeL l = l
+  | [], _ => by simp [normalizeL]
+  | c :: t, h => by
+    rw [normalizeL_cons_ne (h c (by simp)), normalizeL_no_percent t (fun x hx => h x (List.mem_cons_of_mem _ hx))]
+
+/-- **`normalizeUnreserved` of the source is the model's normalisation**, for ALL byte strings: the translated
+function on the bytes `l` returns the bytes of `normalizeL` on the same string (`Base/UrlEscape.lean`; the C08 theorems
+of `Props/C08.lean` are stated over it). Byte `n` ↔ `Char.ofNat n`. -/
+theorem c08_src_normalize (l : List Nat) (hb : ∀ n ∈ l, n < 256) :
+    PathNorm.Src.normalizeUnreserved (asInts l) = ofChars (normalizeL (asChars l)) := by
+  unfold PathNorm.Src.normalizeUnreserved
+  split
+  · rename_i hno
+    have hall : ∀ c ∈ asChars l, c ≠ '%' := by
+      intro c hc
+      simp only [asChars, List.mem_map] at hc
+      obtain ⟨n, hn, rfl⟩ := hc
+      intro heq
+      have h37 : (n : Int) = 37 := by
+        have := byte_is_percent n (hb n hn)
+        simpa [heq] using this
+      apply hno
+      simp only [List.contains_iff_mem, asInts, List.mem_map]
+      exact ⟨n, hn, h37⟩
+    rw [normalizeL_no_percent _ hall, ofChars_asChars l hb]
+  · exact c08_src_normalize_loop l.length l (Nat.le_refl _) hb 0
+
+example : ∀ n ∈ [47, 37, 55, 101], n < 256 := by decide
+
+/-- A string without `%` is returned as it is (directly on the translated function, any list). -/
+theorem c08_src_normalize_no_percent (s : List Int) (h : s.contains 37 = false) :
+    PathNorm.Src.normalizeUnreserved s = s := by
+  unfold PathNorm.Src.normalizeUnreserved
+  have hm : 37 ∉ s := by
+    intro hm
+    have : s.contains 37 = true := List.contains_iff_mem.mpr hm
+    rw [h] at this
+    cases this
+  simp [hm]
+
+example : ([47, 97] : List Int).contains 37 = false := by decide
+
+/-- **An escape of an unreserved octet is decoded in either hex case also when it is the last three bytes of the
+string** (the loop at any index `i` with exactly `%XY` left), and an escape of a reserved octet — `%2F`, `%2f`, `%25`,
+… — is written back byte for byte, wherever it stands. -/
+theorem c08_src_escape_at_end_and_reserved (i : Int) (a b : Nat) (ha : a < 256) (hb : b < 256)
+    (hA : isHex (Char.ofNat a) = true) (hB : isHex (Char.ofNat b) = true) (rest : List Nat) (hr : ∀ n ∈ rest, n < 256) :
+    (isUnreserved (octet (Char.ofNat a) (Char.ofNat b)) = true →
+      PathNorm.Src.normalizeUnreserved_loop i [37, (a : Int), (b : Int)]
+        = [((octet (Char.ofNat a) (Char.ofNat b)).toNat : Int)]) ∧
+    (isUnreserved (octet (Char.ofNat a) (Char.ofNat b)) = false →
+      PathNorm.Src.normalizeUnreserved_loop i (asInts (37 :: a :: b :: rest))
+        = 37 :: (a : Int) :: (b : Int) :: ofChars (normalizeL (asChars rest))) := by
+  have hall : ∀ n ∈ 37 :: a :: b :: rest, n < 256 := by
+    intro n hn
+    simp only [List.mem_cons] at hn
+    rcases hn with h | h | h | h
+    · omega
+    · omega
+    · omega
+    · exact hr n h
+  have h1 := c08_src_normalize_loop _ (37 :: a :: b :: rest) (Nat.le_refl _) hall i
+  have h0 := c08_src_normalize_loop _ [37, a, b] (Nat.le_refl _)
+    (fun n hn => by
+      simp only [List.mem_cons, List.mem_nil_iff, or_false] at hn
+      rcases hn with h | h | h <;> omega) i
+  have e : asChars (37 :: a :: b :: rest) = '%' :: Char.ofNat a :: Char.ofNat b :: asChars rest := rfl
+  have e0 : asChars [37, a, b] = '%' :: Char.ofNat a :: Char.ofNat b :: [] := rfl
+  have ca := byte_char_toNat a ha
+  have cb := byte_char_toNat b hb
+  constructor
+  · intro hu
+    have : asInts [37, a, b] = [37, (a : Int), (b : Int)] := rfl
+    rw [this, e0, normalizeL_esc _ _ hA hB] at h0
+    simpa [hu, ofChars, normalizeL] using h0
+  · intro hu
+    rw [e, normalizeL_esc _ _ hA hB] at h1
+    simpa [hu, ofChars, ca, cb] using h1
+
+example : isHex (Char.ofNat 55) = true ∧ isHex (Char.ofNat 101) = true ∧
+    isUnreserved (octet (Char.ofNat 55) (Char.ofNat 101)) = true ∧
+    isUnreserved (octet (Char.ofNat 50) (Char.ofNat 102)) = false := by decide
 
 end Heimdall.Props.C08
